@@ -456,6 +456,8 @@ impl Resp {
 pub struct World {
     /// the attacker's key per zone (key tag tuned to the genuine key's)
     pub adv_keys: Mutex<HashMap<String, Arc<Key>>>,
+    /// the zone's own second key with a colliding tag (not the attacker's)
+    pub coll_keys: Mutex<HashMap<String, Arc<Key>>>,
     pub zones: Vec<Zone>,
     pub leaf: &'static str,
     pub now: u32,
@@ -516,6 +518,10 @@ fn leaf_content(apex: &N) -> Vec<Rec> {
         a(&sub("deep.ent", apex), "192.0.2.3"),
         rec(&sub("dn", apex), D::Dname(Dname::new(sub("tgt", apex)))),
         a(&sub("host.tgt", apex), "192.0.2.5"),
+        a(&sub("m1", apex), "192.0.2.11"),
+        a(&sub("m2", apex), "192.0.2.12"),
+        a(&sub("m3", apex), "192.0.2.13"),
+        a(&sub("m4", apex), "192.0.2.14"),
     ];
     // two delegation points without a child zone in this world: one with a
     // DS RRset (always in the NSEC3 chain) and one without
@@ -590,11 +596,44 @@ impl World {
         }
         zones.push(z_other);
         zones.push(z_plain);
-        World { adv_keys: Mutex::new(HashMap::new()), zones, leaf: leaf_id, now, anchor }
+        World { adv_keys: Mutex::new(HashMap::new()), coll_keys: Mutex::new(HashMap::new()), zones, leaf: leaf_id, now, anchor }
     }
 
     pub fn adv_key(&self, z: &Zone) -> Arc<Key> {
         let mut m = self.adv_keys.lock().unwrap();
+        m.entry(z.id.to_string())
+            .or_insert_with(|| {
+                let want = z.key.as_ref().map(|k| dnskey_bytes(k).key_tag()).unwrap_or(0);
+                Arc::new(new_key_with_tag(&z.apex, want))
+            })
+            .clone()
+    }
+
+    /// An existing name directly below the leaf apex used as the closest
+    /// encloser of the "nxdeep" question.  For NSEC3 zones it is chosen such
+    /// that the record matching it and the records covering nx.<mid>,
+    /// *.<mid> and *.<apex> are four different records (no role aliasing).
+    pub fn mid(&self) -> N {
+        let z = self.zone(self.leaf);
+        for c in ["m1", "m2", "m3", "m4", "www", "alias"] {
+            let m = sub(c, &z.apex);
+            if z.nsec3.is_none() || !z.signed {
+                return m;
+            }
+            let recs = |p: Option<RRs>| p.map(|x| x.recs).unwrap_or_default();
+            let a = recs(z.match_proof("ce", &m));
+            let b = recs(z.cover_proof("nx", &sub("nx", &m)));
+            let c2 = recs(z.cover_proof("wc", &sub("*", &m)));
+            let d = recs(z.cover_proof("wc", &sub("*", &z.apex)));
+            if a != b && a != c2 && b != c2 && a != d {
+                return m;
+            }
+        }
+        sub("m1", &z.apex)
+    }
+
+    pub fn coll_key(&self, z: &Zone) -> Arc<Key> {
+        let mut m = self.coll_keys.lock().unwrap();
         m.entry(z.id.to_string())
             .or_insert_with(|| {
                 let want = z.key.as_ref().map(|k| dnskey_bytes(k).key_tag()).unwrap_or(0);
@@ -791,10 +830,19 @@ fn is_proof(role: &str) -> bool {
     matches!(role, "nd" | "nx" | "ce" | "wc")
 }
 
+/// set when a rewrite aimed at a role found no such RRset in the concrete
+/// message (one NSEC3 record can play two parts of a proof: hash coincidence)
+pub static NOOP_REWRITE: std::sync::atomic::AtomicBool = std::sync::atomic::AtomicBool::new(false);
+
 /// Apply one rewrite of Validator.tla to a response.
 pub fn apply(w: &World, resp: &mut Resp, st: &AdvStep) {
     let day = 86400u32;
     let idx = resp.sets.iter().position(|s| s.role == st.role);
+    if idx.is_none() && !st.role.is_empty() && !st.act.starts_with("ReplayAncestor")
+        && st.act != "BadNsec3Label"
+    {
+        NOOP_REWRITE.store(true, std::sync::atomic::Ordering::SeqCst);
+    }
     match st.act.as_str() {
         "DropRrsig" => {
             if let Some(i) = idx {
@@ -954,6 +1002,68 @@ pub fn apply(w: &World, resp: &mut Resp, st: &AdvStep) {
             resp.sets = sets;
             resp.rcode = if a.contains("Nx") { Rcode::NXDOMAIN } else { Rcode::NOERROR };
         }
+        "CorruptSigOctets" => {
+            // the same RRset and RRSIG fields, different signature octets
+            if let Some(i) = idx {
+                for r in resp.sets[i].sigs.iter_mut() {
+                    if let D::Rrsig(sg) = r.data() {
+                        let mut o = sg.signature().to_vec();
+                        let n = o.len();
+                        o[n / 2] ^= 0x01;
+                        let ns = domain::rdata::Rrsig::new(
+                            sg.type_covered(), sg.algorithm(), sg.labels(), sg.original_ttl(),
+                            sg.expiration(), sg.inception(), sg.key_tag(), sg.signer_name().clone(),
+                            Bytes::from(o),
+                        )
+                        .unwrap();
+                        *r = Record::new(r.owner().clone(), r.class(), r.ttl(), D::Rrsig(ns));
+                    }
+                }
+            }
+        }
+        a if a.starts_with("AddCollidingKey") => {
+            // an honest zone with two keys of equal algorithm and key tag: the
+            // second key is added before / after the DS-committed one and the
+            // DNSKEY RRset is signed by the zone's own key
+            if let Some(i) = idx {
+                let owner = resp.sets[i].recs[0].owner().clone();
+                if let Some(z) = w.zone_by_apex(&owner) {
+                    let k2 = w.coll_key(z);
+                    let extra = rec(&owner, D::Dnskey(dnskey_bytes(&k2)));
+                    let mut recs = std::mem::take(&mut resp.sets[i].recs);
+                    if a.ends_with("First") { recs.insert(0, extra) } else { recs.push(extra) }
+                    let sig = sign_set(z.key.as_ref().unwrap(), &recs, w.now - 3600, w.now + day);
+                    resp.sets[i].recs = recs;
+                    resp.sets[i].sigs = vec![sig];
+                }
+            }
+        }
+        a if a.starts_with("AddExtraDs") => {
+            // several DS records at the delegation, one of them matching: the
+            // extra one has the genuine key's tag and algorithm but commits
+            // to another key; DS RRset signed by the parent
+            if let Some(i) = idx {
+                let owner = resp.sets[i].recs[0].owner().clone();
+                if let (Some(c), Some(p)) = (w.zone_by_apex(&owner), signer_zone(w, &resp.sets[i])) {
+                    let extra = rec(&owner, ds_for(&owner, &w.coll_key(c)));
+                    let mut recs = std::mem::take(&mut resp.sets[i].recs);
+                    if a.ends_with("First") { recs.insert(0, extra) } else { recs.push(extra) }
+                    let sig = sign_set(p.key.as_ref().unwrap(), &recs, w.now - 3600, w.now + day);
+                    resp.sets[i].recs = recs;
+                    resp.sets[i].sigs = vec![sig];
+                }
+            }
+        }
+        "HideCe" => {
+            // NXDOMAIN below an existing name: the NSEC3 matching the real
+            // closest encloser is withheld and the wildcard denial is the one
+            // for *.<apex> - genuine records, incomplete proof
+            let z = w.zone(w.leaf);
+            resp.sets.retain(|s| s.role != "ce" && s.role != "wc");
+            if let Some(p) = z.cover_proof("wc", &sub("*", &z.apex)) {
+                Zone::push_unique(&mut resp.sets, p);
+            }
+        }
         "StripProof" => {
             resp.sets.retain(|s| !is_proof(&s.role));
         }
@@ -1070,7 +1180,9 @@ pub fn apply(w: &World, resp: &mut Resp, st: &AdvStep) {
 
 pub struct Mock {
     pub world: Arc<World>,
-    pub plan: Vec<AdvStep>,
+    /// the adversary's plan for the current validation run (switchable: one
+    /// ValidationContext may validate several answers in a row)
+    pub plan: Arc<Mutex<Vec<AdvStep>>>,
     /// serve the user's query (ANS steps) or the validator's own fetches
     pub user: bool,
     pub log: Arc<Mutex<Vec<(String, String)>>>,
@@ -1092,7 +1204,8 @@ impl Clone for Mock {
 impl Mock {
     pub fn respond(&self, qname: &N, qtype: Rtype) -> Message<Bytes> {
         let mut resp = self.world.answer(qname, qtype);
-        for st in &self.plan {
+        let plan = self.plan.lock().unwrap().clone();
+        for st in &plan {
             let hit = if self.user {
                 st.t == "ANS"
             } else {
@@ -1201,6 +1314,7 @@ pub fn question(w: &World, qk: &str, plan: &[AdvStep]) -> (N, Rtype) {
         "wildcard" => (sub("x.wild", leaf), Rtype::A),
         "nodata" => (sub("www", leaf), Rtype::AAAA),
         "nxdomain" => (sub("nx", leaf), Rtype::A),
+        "nxdeep" => (sub("nx", &w.mid()), Rtype::A),
         "cname1" => (sub("alias", leaf), Rtype::A),
         "cname2" => (sub("alias2", leaf), Rtype::A),
         "ds" => (leaf.clone(), Rtype::DS),
@@ -1231,6 +1345,8 @@ fn state_str(s: ValidationState) -> &'static str {
 }
 
 pub struct Outcome {
+    /// a rewrite found nothing to act on (see NOOP_REWRITE)
+    pub noop: bool,
     pub obs: Value,
     pub fetches: Vec<(String, String)>,
     pub conn: Option<Value>,
@@ -1243,12 +1359,20 @@ pub fn run_scenario(worlds: &mut Worlds, input: &Value, with_conn: bool) -> Outc
     let qk = input["qk"].as_str().unwrap_or("").to_string();
     let plan = parse_adv(&input["adv"]);
     let w = worlds.get(shape, denial);
+    NOOP_REWRITE.store(false, std::sync::atomic::Ordering::SeqCst);
     let (qname, qtype) = question(&w, &qk, &plan);
     let log = Arc::new(Mutex::new(Vec::new()));
-    let infra = Mock { world: w.clone(), plan: plan.clone(), user: false, log: log.clone(), budget: 60 };
+    // "runs": several validations of the same question on ONE context, each
+    // with its own adversary plan (caches persist); otherwise a single run
+    let plans: Vec<Vec<AdvStep>> = match input["runs"].as_array() {
+        Some(r) => r.iter().map(parse_adv).collect(),
+        None => vec![plan.clone()],
+    };
+    let cur = Arc::new(Mutex::new(Vec::new()));
+    let infra = Mock { world: w.clone(), plan: cur.clone(), user: false, log: log.clone(), budget: 60 * plans.len() };
     let user = Mock {
         world: w.clone(),
-        plan: plan.clone(),
+        plan: cur.clone(),
         user: true,
         log: Arc::new(Mutex::new(Vec::new())),
         budget: 60,
@@ -1258,17 +1382,25 @@ pub fn run_scenario(worlds: &mut Worlds, input: &Value, with_conn: bool) -> Outc
         rt.block_on(async {
             let ta = TrustAnchors::from_u8(w.anchor.as_bytes()).expect("anchor");
             let vc = ValidationContext::new(ta, infra.clone());
-            let mut msg = user.respond(&qname, qtype);
-            let r = tokio::time::timeout(
-                std::time::Duration::from_secs(10),
-                vc.validate_msg::<Bytes, Vec<u8>>(&mut msg),
-            )
-            .await;
-            match r {
-                Err(_) => json!({"hang": true}),
-                Ok(Err(e)) => json!({"error": format!("{}", e)}),
-                Ok(Ok((st, _ede))) => json!({"state": state_str(st)}),
+            let mut last = json!({"state": "none"});
+            for pl in &plans {
+                *cur.lock().unwrap() = pl.clone();
+                let mut msg = user.respond(&qname, qtype);
+                let r = tokio::time::timeout(
+                    std::time::Duration::from_secs(10),
+                    vc.validate_msg::<Bytes, Vec<u8>>(&mut msg),
+                )
+                .await;
+                last = match r {
+                    Err(_) => json!({"hang": true}),
+                    Ok(Err(e)) => json!({"error": format!("{}", e)}),
+                    Ok(Ok((st, _ede))) => json!({"state": state_str(st)}),
+                };
+                if last.get("state").is_none() {
+                    break;
+                }
             }
+            last
         })
     }));
     let mut obs = match res {
@@ -1276,14 +1408,15 @@ pub fn run_scenario(worlds: &mut Worlds, input: &Value, with_conn: bool) -> Outc
         Err(_) => json!({"panic": true}),
     };
     let fetches = log.lock().unwrap().clone();
-    if fetches.len() > 60 {
+    if fetches.len() > 60 * plans.len() {
         obs = json!({"hang": true});
     }
     let mut conn = None;
-    if with_conn {
+    if with_conn && plans.len() == 1 {
         conn = Some(run_conn(&w, &plan, &qname, qtype));
     }
-    Outcome { obs, fetches, conn }
+    let noop = NOOP_REWRITE.load(std::sync::atomic::Ordering::SeqCst);
+    Outcome { noop, obs, fetches, conn }
 }
 
 /// The same scenario through net::client::validator::Connection: AD bit /
@@ -1291,8 +1424,9 @@ pub fn run_scenario(worlds: &mut Worlds, input: &Value, with_conn: bool) -> Outc
 pub fn run_conn(w: &Arc<World>, plan: &[AdvStep], qname: &N, qtype: Rtype) -> Value {
     use domain::net::client::validator::Connection;
     let log = Arc::new(Mutex::new(Vec::new()));
-    let infra = Mock { world: w.clone(), plan: plan.to_vec(), user: false, log: log.clone(), budget: 60 };
-    let user = Mock { world: w.clone(), plan: plan.to_vec(), user: true, log: log.clone(), budget: 60 };
+    let cur = Arc::new(Mutex::new(plan.to_vec()));
+    let infra = Mock { world: w.clone(), plan: cur.clone(), user: false, log: log.clone(), budget: 60 };
+    let user = Mock { world: w.clone(), plan: cur.clone(), user: true, log: log.clone(), budget: 60 };
     let rt = tokio::runtime::Builder::new_current_thread().enable_time().build().expect("rt");
     let res = std::panic::catch_unwind(std::panic::AssertUnwindSafe(|| {
         rt.block_on(async {
